@@ -127,7 +127,7 @@ func ValidateFormat(name string, val string, f Format) error {
 			err = fmt.Errorf("invalid JSON")
 		}
 	case FormatRFC1123:
-		_, err = time.Parse(time.RFC1123, val)
+		err = validateRFC1123(val)
 	default:
 		return fmt.Errorf("unknown format %#v", f)
 	}
@@ -181,6 +181,24 @@ func validateDateTime(val string) error {
 		if off := val[len(val)-len("07:00"):]; off[:2] > "23" || off[3:] > "59" {
 			return fmt.Errorf("%q: time offset out of range", val)
 		}
+	}
+	return nil
+}
+
+// validateRFC1123 returns an error if val is not a RFC1123 date time value with
+// either a time zone abbreviation ("Mon, 02 Jan 2006 15:04:05 MST") or a
+// numeric time zone ("Mon, 02 Jan 2006 15:04:05 -0700").
+func validateRFC1123(val string) error {
+	if _, err := time.Parse(time.RFC1123, val); err != nil {
+		if _, errz := time.Parse(time.RFC1123Z, val); errz != nil {
+			return err
+		}
+	}
+	// time.Parse is lenient: it accepts a one digit hour and fractional
+	// seconds. Both shift the separators of the otherwise fixed-width prefix.
+	const prefix = "Mon, 02 Jan 2006 15:04:05 "
+	if len(val) <= len(prefix) || val[len("Mon, 02 Jan 2006 15")] != ':' || val[len(prefix)-1] != ' ' {
+		return fmt.Errorf("%q does not match %q", val, time.RFC1123)
 	}
 	return nil
 }
